@@ -30,7 +30,7 @@ class BoundedResult:
             self.nontrivial.add(key if isinstance(key, (str, int, tuple)) else repr(key))
         if len(self.samples) < 3 and sample is not None:
             self.samples.append(sample)
-        if not ok and len(self.failures) < 20:
+        if not ok and len(self.failures) < 400:
             self.failures.append({"input": _jsonable(sample if sample is not None else key), "detail": detail})
         elif not ok:
             self.failures.append(None)
@@ -292,8 +292,9 @@ def finish(ctx, lock_mode=False):
         rules.append(f"{b.name}: {b.rule}" + (" [exhaustive]" if b.exhaustive else ""))
         if b.evaluations == 0 and not b.error:
             checker_errors.append(f"{b.name}: bounded check evaluated nothing")
-        for f in b.failures[:10]:
-            if f is not None:
+        for f in b.failures:
+            # every recorded failure is matched against the known findings; at most 12 new ones get a replay file
+            if f is not None and sum(1 for v in violations if v[0] == b.name) < 12:
                 report_violation(b.name, "contract", f)
 
     if lock_mode:
